@@ -42,10 +42,11 @@ PROPS = {
         level_note="Weights outside the alphabet (non-finite, denormal, huge) are decided under C02 (never crash). Floating point comparison tolerance 1e-9; ring tolerance (k+1)/(10000-k).",
         units=[
         unit("c04", "route", ROUTE_COMMON + ["route/c04_test.go"], "^TestVerifC04"),
-    ], layers={"quick": ["c04-add", "c04-weightcmd"], "thorough": ["c04-add", "c04-weightcmd"]}),
+        route_sched("c04-sched", "^TestVerifC04Sched", shards={"quick": 1, "thorough": 8}),
+    ], layers={"quick": ["c04-add", "c04-weightcmd", "c04-sched"], "thorough": ["c04-add", "c04-weightcmd", "c04-sched"]}),
     "C05": dict(level="model_checking", engine="xstate",
         technique="explicit-state BFS over route-command scripts with a reference interpreter; each transition rebuilds the real table with NewTable and compares",
-        level_text="All reachable reference states of a 17-command alphabet (add/del/weight in every documented form, hosts in mixed case, tags, opts, weights) are explored breadth-first (quick: depth 5 with state de-duplication; thorough: until the frontier empties); every transition is executed on the real parser + table and compared field by field with an independent interpreter; every state round-trips through Parse(Table.String()).",
+        level_text="All reachable reference states of a 18-command alphabet (add/del/weight in every documented form, hosts in mixed case, tags, opts, weights) are explored breadth-first (quick: depth 5 with state de-duplication; thorough: until the frontier empties); every transition is executed on the real parser + table and compared field by field with an independent interpreter; every state round-trips through Parse(Table.String()).",
         level_note="The reference interpreter is the trusted statement of the documented semantics. State merging is by the canonical reference table; it is sound because each transition checks that the real table equals that canonical form, so merged states have equal real tables. Effective-weight round trip tolerance 5e-4.",
         units=[
         unit("c05", "route", ROUTE_COMMON + ["route/c05_test.go"], "^TestVerifC05"),
